@@ -119,3 +119,7 @@ Proof. vm_compute. reflexivity. Qed.
 
 Lemma evict_branch_as_modelled : c20_evict_branch_as_modelled = true.
 Proof. reflexivity. Qed.
+
+(* the two merging branches of scheduleReorgLoop read as Model.sched_merge states them *)
+Lemma sched_merge_as_modelled : c20_sched_merge_as_modelled = true.
+Proof. reflexivity. Qed.
